@@ -68,6 +68,8 @@ type simEth struct {
 	faults   map[string]int // method -> number of next calls that fail
 	subs     []*simSub
 	gsKeys   []common.Address
+	lag      uint64 // finalized head = head - lag (never moves backwards)
+	final    uint64
 	drain    func(n int) // called under the lock before a request is recorded: n = requests recorded so far
 }
 
@@ -90,6 +92,17 @@ func newSimEth(contract common.Address) *simEth {
 
 func (s *simEth) blockHash(n uint64) common.Hash {
 	return crypto.Keccak256Hash([]byte(fmt.Sprintf("block-%d-fork-%d", n, s.fork[n])))
+}
+
+// view: the block number the node reports under a tag
+func (s *simEth) view(tag string) uint64 {
+	if tag != "finalized" && tag != "safe" {
+		return s.head
+	}
+	if s.head > s.lag && s.head-s.lag > s.final {
+		s.final = s.head - s.lag
+	}
+	return s.final
 }
 
 func (s *simEth) fail(method string) bool {
@@ -118,7 +131,7 @@ func (a *ethAPI) GetBlockByNumber(ctx context.Context, tag string, full bool) (m
 		s.record(served{method: "eth_getBlockByNumber", arg: tag, err: true})
 		return nil, errTransient
 	}
-	n := s.head
+	n := s.view(tag)
 	if strings.HasPrefix(tag, "0x") {
 		b, err := hexutil.DecodeUint64(tag)
 		if err != nil {
